@@ -326,7 +326,53 @@ def replay_app_ptr_move_assign(spec, vals, obligation, desc):
     return body, judge
 
 
-KINDS = {'app_ptr_move_assign': replay_app_ptr_move_assign, 'convert': replay_convert, 'ptr_arith': replay_ptr_arith, 'arr_index': replay_arr_index,
+NOOP_PRE = '''#define RLBOX_SINGLE_THREADED_INVOCATIONS
+#define RLBOX_USE_EXCEPTIONS
+#define RLBOX_USE_STATIC_CALLS() rlbox_noop_sandbox_lookup_symbol
+#include "rlbox_noop_sandbox.hpp"
+#include "rlbox.hpp"
+#include <cstdio>
+#include <stdexcept>
+#include <vector>
+using namespace rlbox;
+using SB = rlbox_sandbox<rlbox_noop_sandbox>;
+template<int N> tainted<int, rlbox_noop_sandbox> cbfn(SB&, tainted<long, rlbox_noop_sandbox> a) { return tainted<int, rlbox_noop_sandbox>(N); }
+'''
+
+
+def replay_callback_move_assign(spec, vals, obligation, desc):
+    body = NOOP_PRE + '''int main(){
+  SB sb; sb.create_sandbox();
+  auto c1 = sb.register_callback(cbfn<1>); auto c2 = sb.register_callback(cbfn<2>);
+  c1 = std::move(c2);                       // overwrite a live owner
+  int f1_can_be_registered_again = 1;
+  try { auto c3 = sb.register_callback(cbfn<1>); } catch (const std::runtime_error&) { f1_can_be_registered_again = 0; }
+  std::printf("overwritten_registration_released=%d\\n", f1_can_be_registered_again);
+  return 0; }
+'''
+
+    def judge(d):
+        return d.get('overwritten_registration_released') == '0'
+    return body, judge
+
+
+def replay_register_full_table(spec, vals, obligation, desc):
+    regs = ''.join('  owners.push_back(sb.register_callback(cbfn<%d>));\n' % i for i in range(64))
+    body = NOOP_PRE + 'int main(){\n  SB sb; sb.create_sandbox();\n  std::vector<sandbox_callback<int (*)(long), rlbox_noop_sandbox>> owners;\n' + regs + '''
+  int refused = 0; int claims_registered = 0; unsigned long entry = 1;
+  try { auto extra = sb.register_callback(cbfn<64>); claims_registered = !extra.is_unregistered(); entry = (unsigned long)extra.UNSAFE_sandboxed(sb); }
+  catch (const std::runtime_error&) { refused = 1; }
+  std::printf("registration_65_refused=%d\\nclaims_registered=%d\\nentry_point=%lu\\n", refused, claims_registered, entry);
+  return 0; }
+'''
+
+    def judge(d):
+        return d.get('registration_65_refused') == '0' and d.get('claims_registered') == '1' and d.get('entry_point') == '0'
+    return body, judge
+
+
+KINDS = {'callback_move_assign': replay_callback_move_assign, 'register_full_table': replay_register_full_table,
+         'app_ptr_move_assign': replay_app_ptr_move_assign, 'convert': replay_convert, 'ptr_arith': replay_ptr_arith, 'arr_index': replay_arr_index,
          'check_range': replay_check_range, 'unverified_ptr': replay_unverified_ptr,
          'assign_raw': replay_assign_raw, 'accept_pointer': replay_accept_pointer}
 
